@@ -62,6 +62,15 @@ DT_KERNELS["TzRfcKernels"] = dict(imports=["DateutilVerif.Model.RfcPy", "Dateuti
 import translate_tzif as TZF
 DT_KERNELS["TzifKernels"] = dict(imports=["DateutilVerif.Model.TzifPy"], groups=None, translate=TZF.translate_files)
 
+# "HelpPy" kernels (harness/translate_tzhelp.py): the fixed zones tzutc / tzoffset (C04, C18) and the module-level PEP 495 helpers (C05)
+import translate_tzhelp as TZH
+DT_KERNELS["TzFixedKernels"] = dict(imports=["DateutilVerif.Model.HelpPy"], groups=TZH.FIXED, translate=TZH.translate_files)
+DT_KERNELS["TzHelpKernels"] = dict(imports=["DateutilVerif.Model.HelpPy"], groups=TZH.HELPERS, translate=TZH.translate_files)
+
+# "LoadPy" kernel (harness/translate_load.py): the load paths tz.tzfile.__init__ and zoneinfo.ZoneInfoFile.__init__ / get (C06)
+import translate_load as TLD
+DT_KERNELS["TzLoadKernels"] = dict(imports=["DateutilVerif.Model.LoadPy", "DateutilVerif.Generated.TzifKernels"], groups=None, translate=TLD.translate_files)
+
 # "RDPy" kernels (harness/translate_rd.py): the methods of relativedelta, several Lean functions per method
 import translate_rd as TR
 RD_KERNELS = {
